@@ -106,9 +106,11 @@ static void bfree(cbuf *c) { if (c->heap) free(c->heap); if (c->g.base) v_gfree(
 int main(int argc, char **argv) {
     if (argc < 4) { fprintf(stderr, "usage\n"); return 2; }
     uint64_t seed = strtoull(argv[1], NULL, 10);
-    FILE *sf = strcmp(argv[2], "probes") ? fopen(argv[2], "r") : stdin; if (!sf) { perror("script"); return 3; }
+    FILE *sf = (strcmp(argv[2], "probes") && strcmp(argv[2], "sysrandom_probe") && strcmp(argv[2], "getrandom_probe")) ? fopen(argv[2], "r") : stdin; if (!sf) { perror("script"); return 3; }
     long start = argc > 4 ? atol(argv[4]) : 0;
     v_open(argv[3]);
+    if (!strcmp(argv[2], "sysrandom_probe")) { sysrandom_probe(1); v_close(); return 0; }
+    if (!strcmp(argv[2], "getrandom_probe")) { sysrandom_probe(0); v_close(); return 0; }
     signal(SIGSEGV, on_signal); signal(SIGBUS, on_signal); signal(SIGABRT, on_signal); signal(SIGILL, on_signal); signal(SIGFPE, on_signal);
 #ifdef V_ASAN
     __sanitizer_set_death_callback(on_san_death);
